@@ -185,6 +185,33 @@ def leafgen(ctx):
     return (rc == 0 and not info.get('failed')), info
 
 
+LEAF_FILE = {'anydata': 'GenAnyData', 'anyid': 'GenAnyId', 'autoremove': 'GenAutoRemove', 'callbacklist': 'GenCL', 'ctors': 'GenCtor',
+             'dispatch': 'GenDisp', 'exn': 'GenExn', 'filter': 'GenFilter', 'heter': 'GenHeter', 'locks': 'GenLocks', 'queue': 'GenQ',
+             'queueconc': 'GenQConc', 'remover': 'GenRemover', 'spinlock': 'GenSpin'}
+
+
+def needed_leaves(files):
+    """the leaves (tie A) the given property files depend on: the generated modules reached through their Require lines"""
+    seen, gens, todo = set(), set(), [f[:-2] if f.endswith('.v') else f for f in files]
+    while todo:
+        m = todo.pop()
+        if m in seen:
+            continue
+        seen.add(m)
+        path = os.path.join(COQ, m + '.v')
+        if not os.path.exists(path):
+            continue
+        src = re.sub(r'\(\*.*?\*\)', ' ', open(path).read(), flags=re.S)
+        for stmt in re.findall(r'(?:From\s+[\w.]+\s+)?Require\s+(?:Import\s+|Export\s+)?([^.]*(?:\.[A-Za-z][^.]*)*)\.\s', src):
+            for w in stmt.split():
+                w = w.split('.')[-1]
+                if w.startswith('Gen') and os.path.exists(os.path.join(COQ, 'gen', w + '.v')):
+                    gens.add(w)
+                elif os.path.exists(os.path.join(COQ, w + '.v')):
+                    todo.append(w)
+    return sorted(n for n, g in LEAF_FILE.items() if g in gens)
+
+
 def coq_prove(ctx, files, timeout=1500, leaves=None):
     """builds the .vo closure of the given property files with make -k, then re-runs
     coqc on each property file to get fresh Print Assumptions output.
@@ -195,8 +222,10 @@ def coq_prove(ctx, files, timeout=1500, leaves=None):
     res['leaves'] = linfo.get('leaves', {})
     if not ok_leaf:
         failed = linfo.get('failed') or [linfo.get('error')]
-        # only the leaves this property depends on decide it (leaves: list of leaf names, None = all)
-        mine = [f for f in failed if leaves is None or any(str(f).startswith(n + ':') for n in leaves) or 'crashed' in str(f)]
+        # only the leaves this property depends on decide it (leaves: list of leaf names; None = those its files import)
+        if leaves is None:
+            leaves = needed_leaves(files)
+        mine = [f for f in failed if any(str(f).startswith(n + ':') for n in leaves) or 'crashed' in str(f)]
         res['foreign_leaf_failures'] = [f for f in failed if f not in mine]
         if mine:
             res['ok'] = False
